@@ -98,9 +98,15 @@ type Sim struct {
 	abort  bool
 	Reason int
 
-	Now       int64 // virtual nanoseconds since epoch
-	Steps     int64
-	MaxSteps  int64
+	Now      int64 // virtual nanoseconds since epoch
+	Steps    int64
+	MaxSteps int64
+	// OnSite, when set, is called (in the yielding task, before the scheduling
+	// decision) at every instrumenter-inserted yield site. It must only touch
+	// atomics: scenarios use it to time a fault to the instant a task stands at a
+	// given source position.
+	OnSite    func(site int)
+	boost     int // task that runs in preference to all others while it can (-1 = none)
 	Switches  int64
 	Preempts  int64
 	LockWaits int64
@@ -216,7 +222,7 @@ const (
 
 // NewSim creates a simulation driven by c.
 func NewSim(c *Choice, pol Policy, maxSteps int64) *Sim {
-	s := &Sim{C: c, Pol: pol, cur: -1, turn: -1, MaxSteps: maxSteps}
+	s := &Sim{C: c, Pol: pol, cur: -1, turn: -1, MaxSteps: maxSteps, boost: -1}
 	s.evh[0] = 0x6a09e667f3bcc908
 	s.evh[1] = 0xbb67ae8584caa73b
 	if pol.MeanGap > 0 {
@@ -255,6 +261,28 @@ func (s *Sim) logEv(kind uint16, a, b int64) {
 //
 //go:norace
 func (s *Sim) Event(a, b int64) { s.logEv(EvUser, a, b) }
+
+// Boost makes t run in preference to every other task from the next yield
+// point on, until Unboost. Scenarios call it from an OnSite hook to let a
+// concurrent call happen exactly while another task stands at a chosen place.
+//
+//go:norace
+func (s *Sim) Boost(t *Task) {
+	if t != nil {
+		s.boost = t.ID
+	}
+}
+
+// Unboost ends a Boost.
+//
+//go:norace
+func (s *Sim) Unboost() { s.boost = -1 }
+
+// StepCount returns the number of scheduling steps so far (readable from tasks
+// in race builds).
+//
+//go:norace
+func (s *Sim) StepCount() int64 { return s.Steps }
 
 // Seq returns the global event sequence number (monotone; used to stamp
 // invoke/return of operations for linearizability checking).
@@ -443,6 +471,13 @@ func (s *Sim) choose(cand []int, n int) int {
 	if n == 1 {
 		return cand[0]
 	}
+	if s.boost >= 0 {
+		for i := 0; i < n; i++ {
+			if cand[i] == s.boost {
+				return s.boost
+			}
+		}
+	}
 	if s.Pol.PCTDepth > 0 {
 		best := cand[0]
 		for i := 1; i < n; i++ {
@@ -539,6 +574,19 @@ func (s *Sim) yieldPoint(site int64) {
 	s.Steps++
 	if s.Steps > s.MaxSteps {
 		s.stop(StopBudget)
+	}
+	if s.boost >= 0 {
+		// a boosted task runs on until it blocks, ends or calls Unboost; everybody
+		// else hands over to it at the next yield point
+		if s.cur == s.boost {
+			return
+		}
+		if bt := s.tasks[s.boost]; bt.state != tsDone && s.ready(bt) {
+			s.Preempts++
+			s.logEv(EvYield, site, int64(s.boost))
+			s.switchTo(s.boost)
+			return
+		}
 	}
 	if s.Pol.PCTDepth > 0 {
 		for i := 0; i < s.pctN; i++ {
@@ -693,8 +741,29 @@ func inTask() *Sim {
 //go:norace
 func Yield(site int) {
 	if s := inTask(); s != nil {
+		if s.OnSite != nil && site >= 0 {
+			s.OnSite(site)
+		}
 		s.yieldPoint(int64(site))
 	}
+}
+
+// SiteTable maps the ids of instrumenter-inserted yield sites to "file:line"
+// (filled in by generated code in statement-instrumented builds; empty otherwise).
+var SiteTable []string
+
+// SiteFile returns the file of a yield site ("" when unknown).
+func SiteFile(site int) string {
+	if site < 0 || site >= len(SiteTable) {
+		return ""
+	}
+	n := SiteTable[site]
+	for i := len(n) - 1; i >= 0; i-- {
+		if n[i] == ':' {
+			return n[:i]
+		}
+	}
+	return n
 }
 
 // Sleep blocks the current task for d virtual nanoseconds.
